@@ -439,11 +439,41 @@ class Program:
                 self.closures_of.setdefault(f.j.get("lexical_parent"), []).append(f.path)
 
     # -- lookup -------------------------------------------------------------
-    def fn(self, path):
+    def fn(self, path, host_ok=False):
+        """the function `path`.  host_ok: when a reviewed *private* function no longer exists but its only reviewed caller does, the code was
+        folded into that caller: return the caller (for rules that look for statements / calls inside the function and are indifferent to
+        what else surrounds them); rules about the function's own return value keep failing closed."""
         f = self.funcs.get(path)
+        if f is None and host_ok and path in self.folded():
+            return self.funcs[self.folded()[path]]
         if f is None:
             raise AnchorMissing("function not found in facts: %s" % path)
         return f
+
+    def folded(self):
+        """{vanished reviewed function: the function that now hosts its code}  (sa/tables/baseline_shapes.json: signatures and call graph of the
+        reviewed tree).  Only for functions that had exactly one reviewed caller, which still exists; a function that was renamed was already
+        mapped back by renames.py and is not missing."""
+        if getattr(self, "_folded", None) is None:
+            self._folded = {}
+            try:
+                from . import renames
+                sh = renames.shapes()
+            except Exception:
+                sh = {}
+            callers = sh.get("callers", {})
+            fns = sh.get("fns", {})
+            pre = self.crate + "|"
+            for key, cs in callers.items():
+                if not key.startswith(pre):
+                    continue
+                p = key[len(pre):]
+                if p in self.funcs or p.startswith("<") or key not in fns:
+                    continue
+                present = [c for c in cs if c in self.funcs]
+                if len(cs) == 1 and len(present) == 1:
+                    self._folded[p] = present[0]
+        return self._folded
 
     def find(self, regex):
         r = re.compile(regex)
